@@ -214,10 +214,29 @@ void Groups::evalArguments( int argc, char* argv[]) noexcept( false)
          } // end for
       } // end if
 
+      // like in a single handler, a value belongs to the argument whose list of
+      // values is still open, before a positional argument is tried
+      const Handler*  list_owner = nullptr;
+
+      if (ai->mElementType == detail::ArgListElement::Type::value)
+      {
+         for (auto const& stored_group : mArgGroups)
+         {
+            if (stored_group.mpArgHandler->valueListOpen())
+            {
+               list_owner = stored_group.mpArgHandler.get();
+               break;   // for
+            } // end if
+         } // end for
+      } // end if
+
       for (auto & stored_group : mArgGroups)
       {
          if ((key_owner != nullptr)
              && (stored_group.mpArgHandler.get() != key_owner))
+            continue;   // for
+         if ((list_owner != nullptr)
+             && (stored_group.mpArgHandler.get() != list_owner))
             continue;   // for
 
          result = stored_group.mpArgHandler->evalSingleArgument( ai, alp.end());
